@@ -475,6 +475,21 @@ class Interp(MiniEval):
                             raise Unsupported('re.escape of an abstract value')
                         return _re.escape(x)
                     return escape_
+                if attr in ('match', 'search', 'fullmatch', 'finditer', 'findall', 'split', 'sub') and self.shared.get('regex_engine'):
+                    # re.match(pattern, text, flags) ...: compiled on the spot, applied by the analyser's own matcher
+                    def direct_(pattern, *a, _attr=attr, **kw):
+                        if not isinstance(pattern, str):
+                            raise Unsupported(f're.{_attr} of an abstract pattern')
+                        flags = kw.pop('flags', 0)
+                        nfix = {'match': 1, 'search': 1, 'fullmatch': 1, 'finditer': 1, 'findall': 1, 'split': 2, 'sub': 3}[_attr]
+                        if _attr == 'split' and len(a) == 2 and 'maxsplit' not in kw:
+                            nfix = 2
+                        if len(a) > nfix:
+                            flags = a[nfix]
+                            a = a[:nfix]
+                        pobj = Obj(_name=f're:{pattern[:20]}', pattern=pattern, flags=int(flags), __isa__=('re.Pattern',))
+                        return self.getattr(pobj, _attr)(*a, **kw)
+                    return direct_
                 if attr == 'compile':
                     def compile_(pattern, flags=0):
                         if not isinstance(pattern, str):
